@@ -67,6 +67,11 @@ func received(notes []string) map[string][]string {
 	return m
 }
 
+// unreducedOnly: the engine error names a construct only the unreduced explorer accepts.
+func unreducedOnly(e string) bool {
+	return strings.Contains(e, "unsupported: blocking select with a send case") || strings.Contains(e, "unsupported: select with default over an unbuffered channel")
+}
+
 type compScenario struct {
 	desc    string
 	setup   func()                          // files to create (cwd is the fresh scratch dir)
@@ -197,6 +202,20 @@ func runCompJob(job *Job, res *Result) {
 		res.Stats = vs.ExploreNaive(setup, body, visit, false, job.Delay, deadline)
 	default:
 		res.Stats = vs.ExploreDPOR(setup, body, visit, deadline)
+		if unreducedOnly(res.Error) {
+			// a construct the reduced explorer is not validated for: the unreduced enumeration decides
+			res.Error = ""
+			res.Violations = nil
+			for k := range outcomes {
+				delete(outcomes, k)
+			}
+			for k := range seen {
+				delete(seen, k)
+			}
+			res.Extra["unreduced_fallback_delay_bound"] = 2
+			res.Stats = vs.ExploreNaive(setup, body, visit, false, 2, deadline)
+			res.Stats.Closed = false
+		}
 	}
 	res.NOutcomes = len(outcomes)
 	for _, ms := range sites {
